@@ -33,6 +33,46 @@ type sessCfg struct {
 	NR       int    `json:"packets_responder_to_initiator"`
 	V1Match  int    `json:"v1_prefix_bytes_matched_by_initiator_key"`
 	Frag     bool   `json:"fragmented_reads"`
+	// Teaser: the reference peer delays its garbage until it knows its own terminator and makes the garbage end in
+	// (and contain) proper prefixes of that terminator, preferably of a length m with T[m] == T[0]
+	Teaser bool `json:"peer_garbage_ends_in_terminator_prefix,omitempty"`
+}
+
+// teaserGarbage rewrites the tail (and a few inner places) of g with proper prefixes of the terminator.
+func teaserGarbage(r *mon.Rand, g []byte, term []byte) ([]byte, int) {
+	if len(g) < 16 {
+		g = append(g, r.Bytes(16+r.Intn(40)-len(g))...)
+	}
+	// prefer a prefix length m at which the terminator repeats its first byte (a matcher that restarts from scratch
+	// on a mismatch loses exactly these)
+	var ms []int
+	for m := 1; m < 16; m++ {
+		if term[m] == term[0] {
+			ms = append(ms, m)
+		}
+	}
+	m := 1 + r.Intn(15)
+	if len(ms) > 0 {
+		m = ms[r.Intn(len(ms))]
+	}
+	for i := 0; i < 3 && len(g) > 40; i++ {
+		j := 1 + r.Intn(15)
+		at := r.Intn(len(g) - 32)
+		copy(g[at:], term[:j])
+	}
+	// the first occurrence of the terminator in garbage || terminator must be the real one (a terminator that overlaps
+	// itself, e.g. T[15] == T[0] with m = 15, would otherwise end the garbage early for every conforming receiver)
+	tail := append([]byte(nil), g[len(g)-16:]...)
+	for try := 0; try < 20; try++ {
+		copy(g[len(g)-16:], tail)
+		copy(g[len(g)-m:], term[:m])
+		if bytes.Index(append(append([]byte(nil), g...), term...), term) == len(g) {
+			return g, m
+		}
+		m = 1 + r.Intn(15)
+	}
+	copy(g[len(g)-16:], tail)
+	return g, 0
 }
 
 var wellKnownMagics = []uint32{0xd9b4bef9, 0x0709110b, 0xdab5bffa, 0x12141c16, 0x283f161c, 0x40cf030a}
@@ -229,11 +269,28 @@ func handshakeRealRef(k *mon.Case, cfg sessCfg, realInit bool) *session {
 		if err := s.ref.DetectV1(); err != nil {
 			return failRef("DetectV1", err)
 		}
-		if err := s.ref.SendKey(refGarb); err != nil {
-			return failRef("SendKey", err)
-		}
-		if err := s.ref.RecvKey(); err != nil {
-			return failRef("RecvKey", err)
+		if cfg.Teaser {
+			// a responder knows both keys before it sends anything
+			if err := s.ref.RecvKey(); err != nil {
+				return failRef("RecvKey", err)
+			}
+			var m int
+			refGarb, m = teaserGarbage(r, refGarb, s.ref.SendTerm[:])
+			refGarbage = len(refGarb)
+			k.Count("handshake.peer-garbage.terminator-prefix", 1)
+			if m > 0 && s.ref.SendTerm[m] == s.ref.SendTerm[0] {
+				k.Count("handshake.peer-garbage.terminator-prefix-with-repeated-first-byte", 1)
+			}
+			if err := s.ref.SendKey(refGarb); err != nil {
+				return failRef("SendKey", err)
+			}
+		} else {
+			if err := s.ref.SendKey(refGarb); err != nil {
+				return failRef("SendKey", err)
+			}
+			if err := s.ref.RecvKey(); err != nil {
+				return failRef("RecvKey", err)
+			}
 		}
 		if err := s.ref.SendTerminatorAndVersion(refDecoys); err != nil {
 			return failRef("SendTerminatorAndVersion", err)
@@ -249,7 +306,12 @@ func handshakeRealRef(k *mon.Case, cfg sessCfg, realInit bool) *session {
 			rk = pooledRefKey(k.C, r)
 		}
 		s.ref = ref.NewEndpoint(s.refConn, true, magic, rk.priv, rk.enc)
-		if err := s.ref.SendKey(refGarb); err != nil {
+		if cfg.Teaser {
+			// the initiator's key goes out alone; its garbage follows once the responder's key is known
+			if err := s.ref.SendKey(nil); err != nil {
+				return failRef("SendKey", err)
+			}
+		} else if err := s.ref.SendKey(refGarb); err != nil {
 			return failRef("SendKey", err)
 		}
 		if err := s.real.RespondV2Handshake(realGarbage, netOf(cfg.Magic)); err != nil {
@@ -257,6 +319,18 @@ func handshakeRealRef(k *mon.Case, cfg sessCfg, realInit bool) *session {
 		}
 		if err := s.ref.RecvKey(); err != nil {
 			return failRef("RecvKey", err)
+		}
+		if cfg.Teaser {
+			var m int
+			refGarb, m = teaserGarbage(r, refGarb, s.ref.SendTerm[:])
+			refGarbage = len(refGarb)
+			k.Count("handshake.peer-garbage.terminator-prefix", 1)
+			if m > 0 && s.ref.SendTerm[m] == s.ref.SendTerm[0] {
+				k.Count("handshake.peer-garbage.terminator-prefix-with-repeated-first-byte", 1)
+			}
+			if err := s.ref.SendGarbageLate(refGarb); err != nil {
+				return failRef("SendGarbageLate", err)
+			}
 		}
 		if err := s.ref.SendTerminatorAndVersion(refDecoys); err != nil {
 			return failRef("SendTerminatorAndVersion", err)
@@ -579,6 +653,15 @@ func sessionFamilies(c *mon.Ctx) {
 		if mode == "real-resp" && r.Chance(1, 3) {
 			cfg.V1Match = 1 + r.Intn(15) // initiator key shares 1..15 leading bytes with the v1 version header
 		}
+		if mode != "real-real" && r.Chance(1, 2) {
+			cfg.Teaser = true
+			if g := &cfg.GarbageR; mode == "real-init" && *g > 4000 {
+				*g = r.Intn(200)
+			}
+			if g := &cfg.GarbageI; mode == "real-resp" && *g > 4000 {
+				*g = r.Intn(200)
+			}
+		}
 		k.Desc(cfg)
 		nontrivial := false
 		switch mode {
@@ -683,7 +766,9 @@ func sessionFamilies(c *mon.Ctx) {
 	c.Require("handshake.ok.real-resp", 100)
 	c.Require("handshake.ok.real-real", 60)
 	c.Require("handshake.v1-lookalike-key", 40)
-	c.Require("handshake.peer-garbage.4094", 30)
+	c.Require("handshake.peer-garbage.4094", 10)
+	c.Require("handshake.peer-garbage.terminator-prefix", 100)
+	c.Require("handshake.peer-garbage.terminator-prefix-with-repeated-first-byte", 5)
 	c.Require("handshake.own-garbage.4095", 30)
 	c.Require("stream.sessions.real-init", 20)
 	c.Require("stream.sessions.real-resp", 20)
